@@ -1,6 +1,6 @@
 (** Entry.v — one entry point per model function for the correspondence check:
     the harness sends  ["op", arg]  as one line of ASCII JSON, the model answers one line. *)
-From InToto.Model Require Import Base Json Rule Glob Rules.
+From InToto.Model Require Import Base Json Rule Glob Rules Utf8 Match DirDigest.
 
 Definition s_ok : str := [111;107]%N.
 Definition jok (j : json) : json := JDict [(s_ok, j)].
@@ -71,11 +71,49 @@ Definition fnmatch_op (arg : json) : json :=
   | _, _ => jerr EUnmodelled
   end.
 
+(* ---- C19 / C20 ------------------------------------------------------------- *)
+Definition s_P : str := [80]%N.
+Definition s_A : str := [65]%N.
+Definition s_files : str := [102;105;108;101;115]%N.
+Definition s_ref : str := [114;101;102]%N.
+Definition s_content : str := [99;111;110;116;101;110;116]%N.
+
+Definition match_products_op (arg : json) : json :=
+  match jget s_P arg, jget s_A arg with
+  | Some (JDict P), Some (JDict A) =>
+      let '(o, n, d) := match_products P A in jok (JList [jstr_list o; jstr_list n; jstr_list d])
+  | _, _ => jerr EUnmodelled
+  end.
+
+(** files: [[path, hex], ...] in any order -> the UTF-8 bytes that get hashed (as a string of bytes) *)
+Definition dir_text_op (arg : json) : json :=
+  match jget s_files arg with
+  | Some (JList l) =>
+      match mapM (fun e => match e with JList [JStr p; JStr h] => Ok (p, h) | _ => Err EUnmodelled end) l with
+      | Ok files => if forallb (fun f => encodable (fst f)) files then jok (JStr (utf8 (dir_text files))) else jerr EUnicode
+      | Err e => jerr e
+      end
+  | _ => jerr EUnmodelled
+  end.
+
+Definition ostree_op (arg : json) : json :=
+  match jget s_ref arg, jget s_content arg with
+  | Some (JStr r), Some (JStr c) => jok (JList [JStr (ostree_ref_path r); JStr (ostree_object_path c)])
+  | _, _ => jerr EUnmodelled
+  end.
+
+Definition op_match_products : str := [109;97;116;99;104;95;112;114;111;100;117;99;116;115]%N.
+Definition op_dir_text : str := [100;105;114;95;116;101;120;116]%N.
+Definition op_ostree : str := [111;115;116;114;101;101]%N.
+
 Definition op_rules_trace : str := [114;117;108;101;115;95;116;114;97;99;101]%N.
 Definition op_fnmatch : str := [102;110;109;97;116;99;104]%N.
 
 Definition run_op (op : str) (arg : json) : json :=
-  if eqs op op_rules_trace then rules_trace arg
+  if eqs op op_match_products then match_products_op arg
+  else if eqs op op_dir_text then dir_text_op arg
+  else if eqs op op_ostree then ostree_op arg
+  else if eqs op op_rules_trace then rules_trace arg
   else if eqs op op_fnmatch then fnmatch_op arg
   else
   if eqs op op_lower then match arg with JStr s => jok (JStr (lower s)) | _ => jerr EUnmodelled end
